@@ -334,7 +334,7 @@ var c05DNSKinds = []string{"plain", "blocked", "rewrite", "safebrowsing", "paren
 var c05AdminOps = []string{
 	"access_set", "clients", "set_rules", "filter_add_remove", "filtering_config", "refresh",
 	"rewrites", "blocked_services", "protection_pause", "safesearch", "safebrowsing_parental",
-	"querylog_config", "querylog_read", "stats_config", "stats_read", "dns_config", "stats_reset", "mixed",
+	"querylog_config", "querylog_read", "stats_config", "stats_read", "dns_config", "stats_reset", "querylog_clear", "mixed",
 }
 
 func c05GenRun(r *rand.Rand, emit vutil.Emit, n int) {
@@ -357,6 +357,8 @@ func c05GenRun(r *rand.Rand, emit vutil.Emit, n int) {
 	}
 	scn = append(scn, [3]string{"safebrowsing", "access_set", "blockhost"}, [3]string{"parental", "dns_config", "blockhost"})
 	// statistics readers and writers against continuous unit rotation
+	// query-log clears under Add load with a tiny memory buffer
+	scn = append(scn, [3]string{"plain", "querylog_clear", "smallqlog"}, [3]string{"mixed", "mixed", "smallqlog"})
 	// reload bursts during a gated refresh download (about 6 s: the first
 	// refresh of the updates loop happens 5 s after the start)
 	scn = append(scn, [3]string{"plain", "enable_burst", "gated"})
@@ -367,7 +369,7 @@ func c05GenRun(r *rand.Rand, emit vutil.Emit, n int) {
 		if i < len(scn) {
 			sc = scn[i]
 		} else {
-			sc = [3]string{vutil.Pick(r, c05DNSKinds), vutil.Pick(r, c05AdminOps), vutil.Pick(r, []string{"home", "norecurse", "norecurse", "blockhost", "rotate"})}
+			sc = [3]string{vutil.Pick(r, c05DNSKinds), vutil.Pick(r, c05AdminOps), vutil.Pick(r, []string{"home", "norecurse", "norecurse", "blockhost", "rotate", "smallqlog"})}
 		}
 		emit("C05.run", sc[0], sc[1], vutil.Itoa(2+r.IntN(2)), vutil.Itoa(120+r.IntN(120)), "2",
 			vutil.Itoa(int(r.Uint32()>>1)), sc[2])
@@ -442,8 +444,11 @@ type c05World struct {
 	// gated: as norecurse, with one outdated filter list whose download (the
 	// periodic refresh of the updates loop, 5 s after the start) is held back
 	// by a local HTTP server until release is closed.
-	gated   bool
-	entered chan struct{}
+	gated bool
+	// smallqlog: as norecurse, with a query-log memory buffer of 3 entries, so
+	// that Add spawns a size-triggered flush goroutine every few queries.
+	smallqlog bool
+	entered   chan struct{}
 	release chan struct{}
 	t       *testing.T
 	srv      *Server
@@ -542,6 +547,14 @@ func (w *c05World) call(method, url, body string) int {
 	return rec.Code
 }
 
+func c05MemSize(small bool) uint {
+	if small {
+		return 3
+	}
+
+	return 20
+}
+
 func c05StartUpstream(t *testing.T) (addr string) {
 	pc, err := net.ListenPacket("udp", "127.0.0.1:0")
 	if err != nil {
@@ -567,10 +580,10 @@ func c05StartUpstream(t *testing.T) (addr string) {
 }
 
 func c05NewWorld(t *testing.T, dir string, wiring string) (w *c05World) {
-	norecurse := wiring == "norecurse" || wiring == "blockhost" || wiring == "rotate" || wiring == "gated"
+	norecurse := wiring == "norecurse" || wiring == "blockhost" || wiring == "rotate" || wiring == "gated" || wiring == "smallqlog"
 	w = &c05World{
 		t: t, handlers: map[string]http.HandlerFunc{}, dir: dir, norecurse: norecurse,
-		blockhost: wiring == "blockhost", rotate: wiring == "rotate", gated: wiring == "gated",
+		blockhost: wiring == "blockhost", rotate: wiring == "rotate", gated: wiring == "gated", smallqlog: wiring == "smallqlog",
 		entered: make(chan struct{}), release: make(chan struct{}),
 	}
 	ctx := context.Background()
@@ -671,7 +684,7 @@ func c05NewWorld(t *testing.T, dir string, wiring string) (w *c05World) {
 		Logger: logger, Anonymizer: aghnet.NewIPMut(nil), ConfigModified: w.configModified,
 		HTTPRegister: w.register, FindClient: w.findClient, BaseDir: dir, RotationIvl: 24 * time.Hour,
 		// a small memory buffer: the flush-to-file worker runs all the time
-		MemSize: 20, Enabled: true, FileEnabled: true, Ignored: qlIgn,
+		MemSize: c05MemSize(w.smallqlog), Enabled: true, FileEnabled: true, Ignored: qlIgn,
 	})
 	if err != nil {
 		t.Fatal(err)
@@ -833,6 +846,16 @@ func (w *c05World) adminOp(kind string, i int, r *rand.Rand) {
 		w.call("PUT", "/control/querylog/config/update", fmt.Sprintf(`{"enabled":true,"anonymize_client_ip":%v,"interval":%d,"ignored":["ignored.example","ign%d.example"]}`, on, 24*3600*1000, i%3))
 		if i%4 == 0 {
 			w.call("POST", "/control/querylog_clear", "")
+		}
+	case "querylog_clear":
+		// clearing, reconfiguring and reading the log while Add keeps spawning
+		// flush goroutines
+		w.call("POST", "/control/querylog_clear", "")
+		if i%3 == 0 {
+			w.call("PUT", "/control/querylog/config/update", fmt.Sprintf(`{"enabled":true,"anonymize_client_ip":%v,"interval":%d,"ignored":[]}`, on, 24*3600*1000))
+		}
+		if i%5 == 0 {
+			w.call("GET", "/control/querylog?limit=10", "")
 		}
 	case "querylog_read":
 		w.call("GET", "/control/querylog?limit=20", "")
